@@ -61,3 +61,14 @@ contract("ghost:rezone_utc_preserves", use_at_calls=False,
          requires=["normal24(p)"],
          cases=[Case("%s-%s" % (d, t), lambda E, st, d=d, t=t: {
              "p": mk_timepoint(E, st, "p", d, t)}) for d in DATES for t in TIMES])
+
+_NORM_P = ["valid_date(p)", "time_normal(p)", "tz_ok(p._time_zone)"]
+contract("ghost:single_month_step", use_at_calls=False, requires=_NORM_P,
+         cases=[Case("cal-%s" % t, lambda E, st, t=t: {
+             "p": mk_timepoint(E, st, "p", "cal", t)}) for t in TIMES])
+contract("ghost:months_compose", use_at_calls=False, requires=_NORM_P,
+         cases=[Case("cal-hms", lambda E, st: {
+             "p": mk_timepoint(E, st, "p", "cal", "hms"), "n": E.sym_int("n")})])
+contract("ghost:leap_day_plus_year", use_at_calls=False, requires=_NORM_P,
+         cases=[Case("cal-hms", lambda E, st: {
+             "p": mk_timepoint(E, st, "p", "cal", "hms")})]).modes = ["gregorian", "366day"]
